@@ -11,6 +11,8 @@ ROOT = os.path.dirname(os.path.dirname(os.path.abspath(__file__)))   # /verif ch
 # sensitivity runs against scratch copies must not overwrite committed evidence
 OUT = os.environ.get("VERIF_OUT") or ("/tmp/verif-scratch-out" if os.environ.get("VERIF_NO_EVIDENCE") else ROOT)
 NCPU = int(os.environ.get("VERIF_JOBS", "16"))
+# diagnostic line-coverage tap (tools/cover.sh): child interpreters load harness/covsite/sitecustomize.py
+COVPATH = (os.pathsep + os.path.join(ROOT, "harness", "covsite")) if os.environ.get("VERIF_COVER_DIR") else ""
 
 
 class HarnessError(Exception):
@@ -224,6 +226,8 @@ def _shard_entry(args):
     try:
         mod = importlib.import_module(modname)
         st = getattr(mod, fn)(**kwargs)
+        if os.environ.get("VERIF_COVER_DIR") and "sitecustomize" in sys.modules:
+            sys.modules["sitecustomize"].dump()       # pool workers leave through os._exit
         return ("ok", st.to_json())
     except HarnessError as e:
         return ("harness", str(e))
@@ -268,7 +272,7 @@ def run_shards_optimised(modname, fn, kwargs_list):
         code = ("import sys, json; from harness import core; "
                 "r = core._shard_entry((%r, %r, json.loads(sys.stdin.read()))); print('\\nSHARD-RESULT ' + json.dumps(r))" % (modname, fn))
         envv = dict(os.environ)
-        envv["PYTHONPATH"] = os.pathsep.join([ROOT, os.environ.get("VERIF_REPO", "/repo")] + [p for p in os.environ.get("PYTHONPATH", "").split(os.pathsep) if p])
+        envv["PYTHONPATH"] = os.pathsep.join([ROOT, os.environ.get("VERIF_REPO", "/repo")] + [p for p in os.environ.get("PYTHONPATH", "").split(os.pathsep) if p]) + COVPATH
         procs.append(subprocess.Popen([sys.executable, "-O", "-c", code], stdin=subprocess.PIPE, stdout=subprocess.PIPE,
                                       stderr=subprocess.PIPE, text=True, cwd=ROOT, env=envv))
         procs[-1].stdin.write(json.dumps(kw))
